@@ -518,7 +518,7 @@ func abstractRun(a *absCtx, r *ScenarioRun, drvDir string) ([]map[string]any, er
 				logs := decodeAll(e.Logs)
 				errs := decodeAll(e.Errs)
 				rec := map[string]any{"ev": "match", "h": s.ID, "id": e.ID, "t": e.T, "api": st.API, "cfg": crec, "upd": upd,
-					"tdir": tdir, "tbase": map[bool]string{true: "other_test", false: "main_test"}[st.Via == "otherfile"],
+					"tdir": tdir, "tbase": tbaseOf(st.Via),
 					"nerr": len(errs), "nlog": len(logs), "logk": logKind(logs), "errk": errKind(errs), "errm": errMatchers(errs),
 					"hasfs": hasfs, "fs": a.fsAll(e.Dirs, nil)}
 				x := st.X
@@ -574,7 +574,7 @@ func abstractRun(a *absCtx, r *ScenarioRun, drvDir string) ([]map[string]any, er
 				for i, f := range sum.Files {
 					files[i] = a.path(f)
 				}
-				out = append(out, map[string]any{"ev": "clean", "h": s.ID, "sort": p.Clean != nil && p.Clean.Sort && !p.Clean.NoOpt,
+				out = append(out, map[string]any{"ev": "clean", "h": s.ID, "run": p.Spec.Run, "count": p.Spec.Count, "sort": p.Clean != nil && p.Clean.Sort && !p.Clean.NoOpt,
 					"sum": map[string]any{"present": sum.Present, "passed": sum.Passed, "failed": sum.Failed, "added": sum.Added,
 						"updated": sum.Updated, "skipped": sum.Skipped, "nfiles": sum.NFiles, "ntests": sum.NTests,
 						"files": files, "tests": sum.Tests, "removed": sum.Removed},
@@ -691,4 +691,15 @@ func losslessJSON(a *absCtx, st *Step, e *RawEvent, logk string, expect string) 
 		}
 	}
 	return "na"
+}
+
+// tbaseOf: the test file (without .go) a call is filed under, by call shape
+func tbaseOf(via string) string {
+	switch via {
+	case "otherfile":
+		return "other_test"
+	case "dotfile":
+		return "pay.v2_test"
+	}
+	return "main_test"
 }
